@@ -3,16 +3,17 @@
     `Torrent.path = value`            (torf/_torrent.py, `path` setter)
       → `utils.list_files(basepath)`  (torf/_utils.py)
       → `Torrent._set_files(files, basepath)`  (torf/_torrent.py)
-          → `utils.filter_files(files, getter=relpath_with_parent, hidden=False, empty=False, …)`
+          → empty files are dropped by `_set_files` itself (since d89a92e):
+              `files = tuple(f for f in files if not (f.size <= 0 and os.path.exists(f)))`
+          → `utils.filter_files(files, getter=relpath_with_parent, hidden=False, empty=True, …)`
 
   External things are parameters:
   * the content tree: its directory (or file) name and its files (path below the tree root,
     size); a single file is the tree with one entry whose relative path is `[]`;
   * the environment `Env`: working directory, the spelling of the path, the order in which
-    `os.walk` happens to produce the files, and `probe` = what `os.path.exists` /
-    `utils.real_size` answer for a *relative* path in that working directory
-    (`none` = does not exist, `some n` = exists with real size `n`) — i.e. the file system as seen
-    from the cwd: the tree wherever it is plus arbitrary other content;
+    `os.walk` happens to produce the files, and `pathExists` = what `os.path.exists` answers in that
+    working directory for a path *as it is written* (absolute, or relative to the cwd) — i.e.
+    the file system as seen from the cwd: the tree wherever it is plus arbitrary other content;
   * `Oracles`: `str.casefold`, `fnmatch.fnmatch(text, pattern)`, `re.search(pattern, text)`.
 -/
 import Torf.Model.Paths
@@ -46,7 +47,7 @@ structure Env where
   cwd : Comps
   spelling : PPath
   order : List FileEnt
-  probe : Comps → Option Nat
+  pathExists : PPath → Bool
 
 /-- a `utils.File`: its `_path` and (for the proofs' bookkeeping) which tree entry it is -/
 structure Item where
@@ -62,6 +63,7 @@ deriving DecidableEq, Repr
 
 inductive Err where
   | relativeTo      -- `ValueError` of `PurePath.relative_to` (not documented for `path = …`)
+  | commonPath      -- `CommonPathError` of the `files` setter (documented there)
 deriving DecidableEq, Repr
 
 instance : DecidableEq (Except Err Created) := fun a b =>
@@ -90,7 +92,7 @@ def listFiles (cf : String → String) (B : PPath) (order : List FileEnt) : List
     sortBy (fun a b => decide (cf (walkStr B a.ent) ≤ cf (walkStr B b.ent)))
       (order.map fun f => (⟨listedPath B f, f⟩ : Item))
 
-/-! ### `utils.filter_files` (as called by `_set_files`: `hidden=False, empty=False`) -/
+/-! ### `utils.filter_files` (as called by `_set_files`: `hidden=False, empty=True`) -/
 
 def isHidden (cs : Comps) : Bool :=
   cs.any fun n => n != "." && n != ".." && n != "" && n.toList.head? == some '.'
@@ -102,29 +104,25 @@ def isExcluded (o : Oracles) (st : Settings) (path : String) : Bool :=
   else if st.exGlobs.any (fun g => o.glob (o.cf path) (o.cf g)) then true
   else false
 
-/-- `not empty and os.path.exists(filepath) and real_size(filepath) <= 0` -/
-def probeEmpty (probe : Comps → Option Nat) (fp : Comps) : Bool :=
-  match probe fp with
-  | some n => n == 0
-  | none => false
-
 /-- the path string the patterns are matched against: `str(Path(basepath.parent, filepath))` -/
 def withBaseStr (base fp : Comps) : String := strOf ⟨false, parent base ++ fp⟩
 
-def filterKeep (o : Oracles) (st : Settings) (cwd : Comps) (probe : Comps → Option Nat)
-    (base fp : Comps) : Bool :=
+/-- the two tests that are left with `hidden=False, empty=True`: `is_hidden(relpath_without_base)`
+    and `is_excluded(relpath_with_base)`; the test `not empty and os.path.exists(filepath) and
+    real_size(filepath) <= 0` is switched off (it probed the getter path `name/rel` relative to the
+    cwd — recorded defect D15a, repaired by d89a92e) -/
+def filterKeep (o : Oracles) (st : Settings) (cwd : Comps) (base fp : Comps) : Bool :=
   let without := relpath cwd fp base
   if isHidden without then false
-  else if probeEmpty probe fp then false
   else if isExcluded o st (withBaseStr base fp) then false
   else true
 
 /-- `items` are pairs (item, `getter(item)`) -/
-def filterFiles (o : Oracles) (st : Settings) (cwd : Comps) (probe : Comps → Option Nat)
+def filterFiles (o : Oracles) (st : Settings) (cwd : Comps)
     (items : List (α × Comps)) : List (α × Comps) :=
   -- `except ValueError: basepath = Path.cwd()` (only reachable with no items)
   let base := (commonpath (items.map (·.2))).getD cwd
-  items.filter fun it => filterKeep o st cwd probe base it.2
+  items.filter fun it => filterKeep o st cwd base it.2
 
 /-! ### `Torrent._set_files` -/
 
@@ -152,11 +150,19 @@ def filesInfo (cwd absB : Comps) (sorted : List Item) : Except Err (List (Comps 
     | some r => pure (r, f.ent.size)
     | none => throw .relativeTo
 
-def setFiles (o : Oracles) (st : Settings) (cwd : Comps) (probe : Comps → Option Nat)
+/-- `tuple(f for f in files if not (f.size <= 0 and os.path.exists(f)))`: what is probed is the
+    size the `File` object carries and the existence of its path *as given* (`os.fspath(f)` =
+    `str(f._path)`, resolved by the OS against the cwd if relative).  Sizes are `Nat` here
+    (`real_size` of a listed file), so `f.size <= 0` is `size == 0`. -/
+def dropEmpty (ex : PPath → Bool) (files : List Item) : List Item :=
+  files.filter fun f => !(f.ent.size == 0 && ex f.path)
+
+def setFiles (o : Oracles) (st : Settings) (cwd : Comps) (ex : PPath → Bool)
     (files : List Item) (B : PPath) : Except Err Created := do
   let absB := abspath cwd B
+  let files := dropEmpty ex files
   let items ← withGetter cwd absB files
-  let kept := (filterFiles o st cwd probe items).map (·.1)
+  let kept := (filterFiles o st cwd items).map (·.1)
   if kept.isEmpty || kept.all (·.ent.size == 0) then
     return .empty
   else if kept.length == 1 && kept.head?.map (·.path) == some B then
@@ -169,23 +175,32 @@ def setFiles (o : Oracles) (st : Settings) (cwd : Comps) (probe : Comps → Opti
 /-- `Torrent.path = spelling` in environment `env` -/
 def pathSetter (o : Oracles) (st : Settings) (env : Env) : Except Err Created :=
   let B := pathlibNorm env.spelling
-  setFiles o st env.cwd env.probe (listFiles o.cf B env.order) B
+  setFiles o st env.cwd env.pathExists (listFiles o.cf B env.order) B
+
+/-- `Torrent.files = files` with `File` objects whose paths are relative (the setter raises
+    `PathError` for absolute ones, not modelled): `basepath = os.path.commonpath(files)`,
+    `CommonPathError` if that is `''`, then the same `_set_files`.  The paths are torrent-relative
+    (`name/rel`), so here `os.path.exists(f)` *is* a probe relative to the cwd: a `File` of size 0
+    is dropped iff something of that name happens to exist below the cwd.  Not part of C15's
+    statement (nothing is created from a directory or file); modelled so that what is left of the
+    cwd dependence after d89a92e is written down (notes/C15.md). -/
+def filesSetter (o : Oracles) (st : Settings) (cwd : Comps) (ex : PPath → Bool)
+    (files : List (Comps × Nat)) : Except Err Created :=
+  if files.isEmpty then .ok .empty
+  else
+    match commonpath (files.map (·.1)) with
+    | none | some [] => .error .commonPath
+    | some b =>
+      setFiles o st cwd ex (files.map fun (p, s) => ⟨⟨false, p⟩, ⟨p.drop b.length, s⟩⟩) ⟨false, b⟩
 
 /-! ### a concrete file system for the driver: absolute path ↦ file size / directory -/
 
 abbrev FS := List (Comps × Option Nat)     -- `some n` file of size n, `none` directory
 
-/-- `os.path.exists` + `real_size` of `cwd / rel` (no symbolic links: `..` is resolved
-    lexically); a directory's size is the sum of the files below it -/
-def fsProbe (fs : FS) (cwd rel : Comps) : Option Nat :=
-  let p := normpath true (cwd ++ rel)
-  match fs.find? (fun e => e.1 == p) with
-  | some (_, some n) => some n
-  | some (_, none) =>
-      some ((fs.filter fun e => p.isPrefixOf e.1).foldl (fun acc e => acc + e.2.getD 0) 0)
-  | none =>
-      if fs.any (fun e => p.isPrefixOf e.1) then
-        some ((fs.filter fun e => p.isPrefixOf e.1).foldl (fun acc e => acc + e.2.getD 0) 0)
-      else none
+/-- `os.path.exists(p)` in working directory `cwd` (no symbolic links: `..` is resolved
+    lexically): the path is an entry of the file system or leads to one -/
+def fsExists (fs : FS) (cwd : Comps) (p : PPath) : Bool :=
+  let q := normpath true (if p.abs then p.comps else cwd ++ p.comps)
+  fs.any fun e => q.isPrefixOf e.1
 
 end Torf.Create
